@@ -538,6 +538,10 @@ func extractContractLines(path string) (lines []string, nos []int, err error) {
 		if strings.HasPrefix(t, "//@") {
 			lines = append(lines, t[3:])
 			nos = append(nos, i+1)
+		} else if strings.HasPrefix(t, "// @") {
+			// gofmt rewrites "//@" to "// @" inside doc comments; both spellings are contract lines
+			lines = append(lines, t[4:])
+			nos = append(nos, i+1)
 		}
 	}
 	return
